@@ -624,6 +624,9 @@ func (t *Tracer) execIf(fr *Frame, i *ssa.If, st State, k func(State, []Ref)) {
 			if vcond != i.Cond {
 				// the same decision seen through the predicate helper's own expression
 				fake := &ssa.If{Cond: vcond}
+				if vfr == nil {
+					vfr = fr // the view resolved to a frame-less value (a constant, a global)
+				}
 				evs = append(evs, t.Spec.Branch(t, vfr, fake, d != vflip)...)
 				// ... and, for a predicate over its parameters only, in the caller's own terms
 				// (through every level of nested predicates: isQueueing() → queueFlag.any() → q != 0)
